@@ -1,6 +1,7 @@
 package p07
 
 import (
+	"encoding/json"
 	"fmt"
 	"sort"
 	"strings"
@@ -116,6 +117,12 @@ type c18Config struct {
 	// two sprints: the flow waits before its second message and the resume brings an environment with another allowed list
 	Phase2   bool     `json:"environment_refreshed_on_resume,omitempty"`
 	Allowed2 []string `json:"allowed_languages_after_resume,omitempty"`
+	// histories (c18_hist.go): a contact who does not speak Lang2 is made to and sent back to RevisitFrom (n1 or r1)
+	Revisit     bool   `json:"language_changed_and_flow_revisited,omitempty"`
+	Lang2       string `json:"contact_language_set_by_the_flow,omitempty"`
+	RevisitFrom string `json:"revisited_from,omitempty"`
+	// several destinations: send_msg with all_urns and a template translated for some of the contact's channels
+	Tpl *c18Tpl `json:"template_and_all_urns,omitempty"`
 }
 
 // the two extra items of the voice variant (not part of the grids)
@@ -279,6 +286,7 @@ func c18RandomPoint(r *fw.Rand) *c18Config {
 			}
 		}
 	}
+	c18RandomHistory(cfg, r)
 	return cfg
 }
 
@@ -419,13 +427,25 @@ func buildC18(cfg *c18Config) *c18Built {
 	if cfg.Phase2 {
 		afterR2 = "w"
 	}
+	r2dest := afterR2
+	if cfg.Revisit {
+		r2dest = "lr"
+	}
 	nodesL := []M{
 		d.Node("n1", n1acts, nil, d.Exit("n1:x", "r1")),
 		d.Node("r1", nil, r1, d.Exit("r1:a", "r2"), d.Exit("r1:b", "r2"), d.Exit("r1:o", "r2")),
-		d.Node("r2", nil, r2, d.Exit("r2:a", afterR2), d.Exit("r2:o", afterR2)),
+		d.Node("r2", nil, r2, d.Exit("r2:a", r2dest), d.Exit("r2:o", r2dest)),
 		d.Node("n3", []any{m2}, nil, d.Exit("n3:x", ""))}
 	if cfg.Phase2 {
 		nodesL = append(nodesL, d.WaitNode("w", "n3", nil))
+	}
+	if cfg.Revisit {
+		// a contact who does not speak Lang2 yet is made to, and goes through (part of) the flow again
+		ly, ln := d.Cat("Speaks", "lr:y"), d.Cat("Other", "lr:n")
+		lc := M{"uuid": gen.NamedUUID("case:lr:1"), "type": "has_only_phrase", "arguments": []string{cfg.Lang2}, "category_uuid": ly["uuid"]}
+		nodesL = append(nodesL,
+			d.Node("lr", nil, d.Switch("@contact.language", []M{ly, ln}, ln, []M{lc}, nil, ""), d.Exit("lr:y", afterR2), d.Exit("lr:n", "sl")),
+			d.Node("sl", []any{d.Action("sl", "set_contact_language", M{"language": cfg.Lang2})}, nil, d.Exit("sl:x", cfg.RevisitFrom)))
 	}
 	flow := d.Flow("L", ftype, nodesL...)
 	flow["language"] = cfg.Base
@@ -491,7 +511,11 @@ func buildC18(cfg *c18Config) *c18Built {
 		env["default_country"] = cfg.Country
 	}
 	trig["environment"] = env
-	b.scen = &gen.Scenario{Assets: d.BaseAssets(flow), Trigger: trig}
+	assets := d.BaseAssets(flow)
+	if cfg.Tpl != nil {
+		cfg.Tpl.apply(assets, ct, m1, m2)
+	}
+	b.scen = &gen.Scenario{Assets: assets, Trigger: trig}
 	if cfg.Phase2 {
 		rs := d.MsgResume(0, "go on")
 		env2 := M{}
@@ -519,6 +543,8 @@ func (p *c18) Rule() string {
 		"locale of a text-less message whose chosen attachments / quick replies were all dropped, and of a whitespace-only text: every reading accepted); a category translation with an empty first element shows the base category; for routers the C07 reference router (trusted base: evaluator and test functions) with arguments localized by the reference chain. "+
 		"quick: seeded random grid points with independent states (all 12) per item; thorough: the complete grid over the first 6 states (%d points; every item/property meets every (configuration, state triple) once), "+
 		"a second complete grid (%d points: configuration x new state x which non-base language has it x {absent, same}^2 for the other two; every item meets each once) plus random points over all 12 states (mixtures of new states are sampled, not enumerated). "+
+		"Histories (25%% of the random points + directed): a guard on @contact.language sends a contact who does not speak a second language yet through set_contact_language and back to the start of the flow or to the first router, so items are evaluated again for another chain and results are saved again under the same name - every visit is judged for the chain of the contact language the reference follows along the path, a stored result for the chain of its LAST save. "+
+		"Several destinations (20%% of the random points + directed): send_msg with all_urns and a template, a contact with 2-3 URNs on different channels, the template translated (1-2 locales, independent of the flow's languages) for some channels only - every message of every destination is judged on its own: flow-text messages by the chain, templated ones for locale = language of the translation shown. "+
 		"Non-trivial = the preference chain has >= 2 distinct languages and at least one non-empty translation exists in a chain language; distinct = SHA of the scenario.", len(c18Allowed), c18GridSize(), c18Grid2Size())
 }
 
@@ -528,7 +554,9 @@ var c18Directed = []string{"blank-translations", "argument-list-lengths", "conta
 	"empty-and-whitespace-translations", "text-less-all-empty-lists", "mixed-empty-shapes",
 	"base-section-contact-is-base", "base-section-nothing-else-translated", "base-section-base-is-default",
 	"voice-text-and-recording-in-different-languages", "voice-recording-only-translated", "voice-text-only-translated", "voice-whitespace-text",
-	"environment-refresh-drops-contact-language", "environment-refresh-allows-contact-language", "environment-refresh-changes-default"}
+	"environment-refresh-drops-contact-language", "environment-refresh-allows-contact-language", "environment-refresh-changes-default",
+	"language-set-by-flow-then-everything-again", "language-set-by-flow-then-routers-again", "language-set-by-flow-to-one-not-allowed", "language-set-by-flow-before-environment-refresh", "language-set-by-flow-voice",
+	"template-for-first-destination-only", "template-between-flow-texts", "template-before-text-less-message", "template-for-every-destination-but-the-last", "template-and-language-set-by-flow"}
 
 func (p *c18) Directed() []string { return c18Directed }
 
@@ -556,7 +584,11 @@ func (p *c18) Floors(tier string) []string {
 		"config.contact.unset", "config.contact.allowed", "config.contact.not-allowed", "config.contact.base", "config.allowed.0", "config.allowed.1", "config.allowed.2", "config.allowed.3",
 		"seen.text_and_attachments_differ_in_language", "seen.localized_args_decide", "silent.args_length_mismatch_ignored",
 		"clause.msg.dropped_elements", "seen.invalid_attachments_of_chosen_translation_dropped", "seen.empty_quick_replies_of_chosen_translation_dropped", "seen.category_translation_with_empty_first_element",
-		"silent.locale_when_attachments_dropped", "silent.locale_when_quick_replies_dropped", "silent.whitespace_text_locale"}
+		"silent.locale_when_attachments_dropped", "silent.locale_when_quick_replies_dropped", "silent.whitespace_text_locale",
+		// histories and several destinations (guaranteed by the directed cases language-set-by-flow-* and template-*)
+		"revisit.chain_changed_by_the_language", "revisit.send_msg_after_language_change", "clause.router_exit.after_language_change", "clause.category_localized.after_language_change",
+		"revisit.result_saved_again_same_outcome_other_localization",
+		"tpl.send_msg_with_several_destinations", "clause.locale.from_template", "clause.locale.untemplated_after_templated", "seen.flow_text_after_template_in_other_language"}
 	for _, st := range c18NewStates {
 		for _, cl := range []string{"msg.text", "msg.attachments", "msg.quick_replies", "set_run_result.category", "category.name", "case.arguments"} {
 			fl = append(fl, "used."+cl+"."+stateNames[st])
@@ -685,18 +717,21 @@ func (p *c18) Run(c fw.Case) fw.Result {
 }
 
 // label names the role a language plays in the configuration (for counters and signatures).
-func (c *c18Config) label(lang string) string {
+func (c *c18Config) label(lang string) string { return c.labelAt(lang, c.Contact) }
+
+// labelAt: the same for the language the contact has at some point of a history.
+func (c *c18Config) labelAt(lang, contact string) string {
 	allowed := contains(c.Allowed, lang)
 	switch {
 	case lang == "":
 		return "none"
 	case lang == c.Base:
 		return "base-language"
-	case lang == c.Contact && allowed:
+	case lang == contact && allowed:
 		return "contact-language"
 	case len(c.Allowed) > 0 && lang == c.Allowed[0]:
 		return "default-language"
-	case lang == c.Contact:
+	case lang == contact:
 		return "contact-language-not-allowed"
 	case allowed:
 		return "other-allowed-language"
@@ -733,8 +768,31 @@ func (p *c18) check(res *fw.Result, h *harness, cfg *c18Config, b *c18Built, rec
 	if flow == nil {
 		return
 	}
-	// the reference chain is computed from the definition we wrote (contact language of the trigger, allowed languages of the trigger environment)
-	chain := refChain(h.trigger.Contact.Language, h.trigger.Environment.AllowedLanguages, flow.Language)
+	// the reference chain is computed from the definition we wrote (contact language of the trigger - followed along the path
+	// through the flow's own set_contact_language in the histories family -, allowed languages of the trigger environment)
+	trigLang, allowed := h.trigger.Contact.Language, h.trigger.Environment.AllowedLanguages
+	chainOf := func(contact string) []string { return refChain(contact, allowed, flow.Language) }
+	visits, finalLang := c18Walk(run, cfg, trigLang)
+	if s.Contact() == nil || string(s.Contact().Language()) != finalLang {
+		// the contact's language is not what the reference followed (not C18's business): no verdict
+		res.Count("skip.contact_language_not_as_modelled", 1)
+		return
+	}
+	// the closures below judge for the chain of the visit that is being looked at
+	curContact := trigLang
+	chain := chainOf(curContact)
+	at := func(v c18Visit) { curContact, chain = v.Contact, chainOf(v.Contact) }
+	lab := func(l string) string { return cfg.labelAt(l, curContact) }
+	visitsOf := func(nodes ...string) []c18Visit {
+		var out []c18Visit
+		for _, v := range visits {
+			if contains(nodes, v.Node) {
+				out = append(out, v)
+			}
+		}
+		return out
+	}
+
 	res.Count(fmt.Sprintf("chain.len_%d", len(chain)), 1)
 	switch {
 	case cfg.Contact == "":
@@ -752,11 +810,28 @@ func (p *c18) check(res *fw.Result, h *harness, cfg *c18Config, b *c18Built, rec
 	} else {
 		res.Count("config.allowed.without_base", 1)
 	}
+	if cfg.Revisit {
+		res.Count("revisit.cases", 1)
+		if finalLang != trigLang {
+			res.Count("revisit.language_changed_and_revisited", 1)
+			if strings.Join(chainOf(trigLang), ",") != strings.Join(chainOf(finalLang), ",") {
+				res.Count("revisit.chain_changed_by_the_language", 1)
+			}
+		}
+	}
+	if cfg.Tpl != nil {
+		res.Count("tpl.cases", 1)
+	}
 
 	viol := func(class, expLabel, obsLabel, what string, extra map[string]any) {
 		extra["config"] = cfg
 		extra["chain"] = chain
 		extra["states"] = cfg.stateTable()
+		if curContact != trigLang {
+			class += "|after-language-change"
+			extra["contact_language_at_this_visit"] = curContact
+			what += fmt.Sprintf(" [the flow had set the contact's language to %q before this visit]", curContact)
+		}
 		res.Violate("C18|decision-mismatch|"+class+"|expected="+expLabel+"|observed="+obsLabel, what, witnessOf(scen, extra))
 	}
 
@@ -764,7 +839,6 @@ func (p *c18) check(res *fw.Result, h *harness, cfg *c18Config, b *c18Built, rec
 	resolve := func(it int) ([]string, string) {
 		val, lang := flow.resolve(chain, b.uuids[it], itemProps[it], b.bases[it])
 		// bookkeeping
-		won := false
 		for k, l := range chain {
 			if l == flow.Language {
 				if k == 0 {
@@ -772,51 +846,53 @@ func (p *c18) check(res *fw.Result, h *harness, cfg *c18Config, b *c18Built, rec
 				} else {
 					res.Count("win.base-language-after-skips", 1)
 				}
-				won = true
 				break
 			}
 			st := cfg.States[it][l]
 			if st >= stSame {
-				res.Count("win."+cfg.label(l), 1)
+				res.Count("win."+lab(l), 1)
 				res.Count("used."+stateNames[st], 1)
 				res.Count("used."+itemClass(it)+"."+stateNames[st], 1)
-				won = true
 				break
 			}
 			res.Count("skipped."+stateNames[st], 1)
 			res.Count("skipped."+itemClass(it)+"."+stateNames[st], 1)
 		}
-		_ = won
 		return val, lang
+	}
+	// what the result of an item would show for another contact language (no bookkeeping)
+	effOf := func(contact string, it int, baseName string) string {
+		v, _ := flow.resolve(chainOf(contact), b.uuids[it], itemProps[it], b.bases[it])
+		if v[0] == "" {
+			return baseName
+		}
+		return v[0]
 	}
 
 	// ---------------- messages
 	// The reference chain decides WHICH translation is taken (statement); what is then sent follows the documented evaluation
 	// of a message (flows/actions/base.go evaluateMessage): an attachment that is not a valid attachment after trimming and a
 	// quick reply that is the empty string are dropped, each with an error event; the text is sent as it is.
-	type sentMsg struct {
-		ev             sprintEvent
-		attErr, qrsErr int // error events of the evaluation that produced this message
+	// Every evaluation of a send_msg (one per visit of its node) creates one message per destination; each is judged for the
+	// chain of its visit. A message that carries a "templating" shows a template translation, not the flow's text.
+	groups := c18MsgGroups(rec)
+	sends := visitsOf("n1", "n3")
+	matched := len(groups) == len(sends)
+	for k := 0; matched && k < len(groups); k++ {
+		matched = groups[k].Step == sends[k].Step
 	}
-	var msgs []sentMsg
-	attErr, qrsErr := 0, 0
-	for _, e := range sprintEvents(rec) {
-		switch {
-		case e.Type == "error" && strings.Contains(e.Text, "attachment evaluated to invalid value"):
-			attErr++
-		case e.Type == "error" && strings.Contains(e.Text, "quick reply evaluated to empty string"):
-			qrsErr++
-		case e.Type == "msg_created" && e.Msg != nil:
-			msgs = append(msgs, sentMsg{e, attErr, qrsErr})
-			attErr, qrsErr = 0, 0
-		}
-	}
-	if len(msgs) != 2 {
+	if !matched {
 		res.Count("skip.unexpected_message_count", 1)
 	} else {
-		for k, base := range []int{itM1Text, itM2Text} {
-			m := msgs[k].ev.Msg
-			name := []string{"m1", "m2"}[k]
+		for k, g := range groups {
+			at(sends[k])
+			base, name := itM1Text, "m1"
+			if sends[k].Node == "n3" {
+				base, name = itM2Text, "m2"
+			}
+			if curContact != trigLang {
+				res.Count("revisit.send_msg_after_language_change", 1)
+			}
 			txt, tl := resolve(base)
 			att, al := resolve(base + 1)
 			qrs, ql := resolve(base + 2)
@@ -827,140 +903,193 @@ func (p *c18) check(res *fw.Result, h *harness, cfg *c18Config, b *c18Built, rec
 			if len(sentQRs) != len(qrs) {
 				res.Count("seen.empty_quick_replies_of_chosen_translation_dropped", 1)
 			}
-
-			res.Count("clause.msg.text", 1)
-			if m.Text != txt[0] {
-				viol("msg.text", cfg.label(tl), cfg.label(langOf(cfg, m.Text)), fmt.Sprintf("%s text is %q, the reference chain %v gives %q (%s)", name, m.Text, chain, txt[0], tl),
-					map[string]any{"message": name, "observed": m.Text, "expected": txt[0], "expected_language": tl})
-			}
-			res.Count("clause.msg.attachments", 1)
-			if !eqStrings(m.Attachments, sentAtt) {
-				viol("msg.attachments", cfg.label(al), cfg.label(langOf(cfg, strings.Join(m.Attachments, " "))), fmt.Sprintf("%s attachments are %v, the reference chain %v takes %q (%s) of which %v are sendable", name, m.Attachments, chain, att, al, sentAtt),
-					map[string]any{"message": name, "observed": m.Attachments, "chosen_translation": att, "expected": sentAtt, "expected_language": al})
-			}
-			res.Count("clause.msg.quick_replies", 1)
-			if !eqStrings(m.QuickReplies, sentQRs) {
-				viol("msg.quick_replies", cfg.label(ql), cfg.label(langOf(cfg, strings.Join(m.QuickReplies, " "))), fmt.Sprintf("%s quick replies are %v, the reference chain %v takes %q (%s) of which %v are sendable", name, m.QuickReplies, chain, qrs, ql, sentQRs),
-					map[string]any{"message": name, "observed": m.QuickReplies, "chosen_translation": qrs, "expected": sentQRs, "expected_language": ql})
-			}
 			// the error events of the evaluation tell how many elements of the chosen translation were dropped: a second view on
 			// which translation was taken (an all-empty translation and a fall-through to an empty base list send the same nothing)
 			res.Count("clause.msg.dropped_elements", 1)
-			if wa, wq := len(att)-len(sentAtt), len(qrs)-len(sentQRs); msgs[k].attErr != wa || msgs[k].qrsErr != wq {
-				class, expL := "msg.attachments.dropped", cfg.label(al)
-				if msgs[k].attErr == wa {
-					class, expL = "msg.quick_replies.dropped", cfg.label(ql)
+			if wa, wq := len(att)-len(sentAtt), len(qrs)-len(sentQRs); g.AttErr != wa || g.QRsErr != wq {
+				class, expL := "msg.attachments.dropped", lab(al)
+				if g.AttErr == wa {
+					class, expL = "msg.quick_replies.dropped", lab(ql)
 				}
-				viol(class, expL, "other-translation", fmt.Sprintf("%s was evaluated with %d invalid-attachment and %d empty-quick-reply error events; the reference chain %v takes attachments %q (%s) and quick replies %q (%s), of which %d and %d are dropped", name, msgs[k].attErr, msgs[k].qrsErr, chain, att, al, qrs, ql, wa, wq),
-					map[string]any{"message": name, "observed_attachment_errors": msgs[k].attErr, "observed_quick_reply_errors": msgs[k].qrsErr, "chosen_attachments": att, "chosen_quick_replies": qrs, "attachments_language": al, "quick_replies_language": ql})
+				viol(class, expL, "other-translation", fmt.Sprintf("%s was evaluated with %d invalid-attachment and %d empty-quick-reply error events; the reference chain %v takes attachments %q (%s) and quick replies %q (%s), of which %d and %d are dropped", name, g.AttErr, g.QRsErr, chain, att, al, qrs, ql, wa, wq),
+					map[string]any{"message": name, "observed_attachment_errors": g.AttErr, "observed_quick_reply_errors": g.QRsErr, "chosen_attachments": att, "chosen_quick_replies": qrs, "attachments_language": al, "quick_replies_language": ql})
 			}
 			if tl != al && len(sentAtt) > 0 {
 				res.Count("seen.text_and_attachments_differ_in_language", 1)
 			}
-			// locale: the language actually used for the text; text-less: attachments, then quick replies.
-			// The statement does not say whether "its attachments / quick replies" are the chosen translation or what is left of it
-			// after the dropping (the code looks at the chosen translation), nor whether a whitespace-only text is a text: in these
-			// corners every reading is accepted (candidates), elsewhere there is one answer.
-			// text-less reading: accepted languages (nil = the statement names none) and the clause it falls under
-			textless := func() ([]string, string) {
-				switch {
-				case len(sentAtt) > 0:
-					return []string{al}, "from_attachments"
-				case len(att) > 0: // every attachment of the chosen translation was dropped
-					res.Count("silent.locale_when_attachments_dropped", 1)
-					if len(sentQRs) > 0 {
-						return []string{al, ql}, "from_dropped_attachments_or_quick_replies"
+			if len(g.Msgs) > 1 {
+				res.Count("tpl.send_msg_with_several_destinations", 1)
+			}
+
+			var templatedBefore []string // languages of the template translations of the earlier messages of this evaluation
+			for _, m := range g.Msgs {
+				if m.templated() {
+					// the text is a template translation: the locale names the language of that translation
+					res.Count("tpl.messages_templated", 1)
+					loc := ""
+					if cfg.Tpl != nil {
+						loc = cfg.Tpl.localeOfTemplateText(m.Text)
+					}
+					if loc == "" {
+						res.Count("skip.template_text_not_recognised", 1)
+						continue
+					}
+					want, obs := strings.SplitN(loc, "-", 2)[0], strings.SplitN(m.Locale, "-", 2)[0]
+					templatedBefore = append(templatedBefore, want)
+					res.Count("clause.locale.from_template", 1)
+					if obs != want {
+						viol("msg.locale.from_template", lab(want), lab(obs), fmt.Sprintf("%s to %s shows the template translation %q (locale %s) but its locale is %q", name, m.URN, m.Text, loc, m.Locale),
+							map[string]any{"message": name, "urn": m.URN, "observed_locale": m.Locale, "template_translation_locale": loc})
+					}
+					continue
+				}
+				if cfg.Tpl != nil {
+					res.Count("tpl.messages_flow_text", 1)
+				}
+				after := ""
+				if len(templatedBefore) > 0 {
+					after = "|after-templated-message"
+				}
+
+				res.Count("clause.msg.text", 1)
+				if m.Text != txt[0] {
+					viol("msg.text"+after, lab(tl), lab(langOf(cfg, m.Text)), fmt.Sprintf("%s text is %q, the reference chain %v gives %q (%s)", name, m.Text, chain, txt[0], tl),
+						map[string]any{"message": name, "urn": m.URN, "observed": m.Text, "expected": txt[0], "expected_language": tl})
+				}
+				res.Count("clause.msg.attachments", 1)
+				if !eqStrings(m.Attachments, sentAtt) {
+					viol("msg.attachments"+after, lab(al), lab(langOf(cfg, strings.Join(m.Attachments, " "))), fmt.Sprintf("%s attachments are %v, the reference chain %v takes %q (%s) of which %v are sendable", name, m.Attachments, chain, att, al, sentAtt),
+						map[string]any{"message": name, "urn": m.URN, "observed": m.Attachments, "chosen_translation": att, "expected": sentAtt, "expected_language": al})
+				}
+				res.Count("clause.msg.quick_replies", 1)
+				if !eqStrings(m.QuickReplies, sentQRs) {
+					viol("msg.quick_replies"+after, lab(ql), lab(langOf(cfg, strings.Join(m.QuickReplies, " "))), fmt.Sprintf("%s quick replies are %v, the reference chain %v takes %q (%s) of which %v are sendable", name, m.QuickReplies, chain, qrs, ql, sentQRs),
+						map[string]any{"message": name, "urn": m.URN, "observed": m.QuickReplies, "chosen_translation": qrs, "expected": sentQRs, "expected_language": ql})
+				}
+				// locale: the language actually used for the text; text-less: attachments, then quick replies.
+				// The statement does not say whether "its attachments / quick replies" are the chosen translation or what is left of it
+				// after the dropping (the code looks at the chosen translation), nor whether a whitespace-only text is a text: in these
+				// corners every reading is accepted (candidates), elsewhere there is one answer.
+				// text-less reading: accepted languages (nil = the statement names none) and the clause it falls under
+				textless := func() ([]string, string) {
+					switch {
+					case len(sentAtt) > 0:
+						return []string{al}, "from_attachments"
+					case len(att) > 0: // every attachment of the chosen translation was dropped
+						res.Count("silent.locale_when_attachments_dropped", 1)
+						if len(sentQRs) > 0 {
+							return []string{al, ql}, "from_dropped_attachments_or_quick_replies"
+						}
+						return nil, ""
+					case len(sentQRs) > 0:
+						return []string{ql}, "from_quick_replies"
+					case len(qrs) > 0:
+						res.Count("silent.locale_when_quick_replies_dropped", 1)
 					}
 					return nil, ""
-				case len(sentQRs) > 0:
-					return []string{ql}, "from_quick_replies"
-				case len(qrs) > 0:
-					res.Count("silent.locale_when_quick_replies_dropped", 1)
 				}
-				return nil, ""
-			}
-			var cands []string
-			from := ""
-			switch {
-			case strings.TrimSpace(txt[0]) != "":
-				cands, from = []string{tl}, "from_text"
-			case txt[0] != "":
-				res.Count("silent.whitespace_text_locale", 1)
-				if c2, _ := textless(); c2 != nil {
-					cands, from = append([]string{tl}, c2...), "from_whitespace_text"
+				var cands []string
+				from := ""
+				switch {
+				case strings.TrimSpace(txt[0]) != "":
+					cands, from = []string{tl}, "from_text"
+				case txt[0] != "":
+					res.Count("silent.whitespace_text_locale", 1)
+					if c2, _ := textless(); c2 != nil {
+						cands, from = append([]string{tl}, c2...), "from_whitespace_text"
+					}
+				default:
+					cands, from = textless()
 				}
-			default:
-				cands, from = textless()
-			}
-			obsLang := strings.SplitN(m.Locale, "-", 2)[0]
-			if from == "" {
-				// a message with nothing (left) in it: the statement names no language
-				res.Count("silent.empty_message_locale", 1)
-				res.Seen("empty_message_locales", m.Locale)
-			} else {
-				res.Count("clause.locale", 1)
-				res.Count("clause.locale."+from, 1)
-				if !contains(cands, obsLang) {
-					want := cands[0]
-					viol("msg.locale."+from, cfg.label(want), cfg.label(obsLang), fmt.Sprintf("%s locale is %q but the language used for its %s is %q (text %q from %s, attachments %q from %s, quick replies %q from %s)", name, m.Locale, strings.TrimPrefix(from, "from_"), want, txt[0], tl, att, al, qrs, ql),
-						map[string]any{"message": name, "observed_locale": m.Locale, "expected_language": want, "accepted_languages": cands, "text_language": tl, "attachments_language": al, "quick_replies_language": ql})
+				obsLang := strings.SplitN(m.Locale, "-", 2)[0]
+				if from == "" {
+					// a message with nothing (left) in it: the statement names no language
+					res.Count("silent.empty_message_locale", 1)
+					res.Seen("empty_message_locales", m.Locale)
+				} else {
+					res.Count("clause.locale", 1)
+					res.Count("clause.locale."+from, 1)
+					if after != "" {
+						// the flow's own text for a destination whose channel has no translation of the template, created after a templated one
+						res.Count("clause.locale.untemplated_after_templated", 1)
+						for _, tlang := range templatedBefore {
+							if !contains(cands, tlang) {
+								res.Count("seen.flow_text_after_template_in_other_language", 1)
+								break
+							}
+						}
+					}
+					if !contains(cands, obsLang) {
+						want := cands[0]
+						viol("msg.locale."+from+after, lab(want), lab(obsLang), fmt.Sprintf("%s locale is %q but the language used for its %s is %q (text %q from %s, attachments %q from %s, quick replies %q from %s)", name, m.Locale, strings.TrimPrefix(from, "from_"), want, txt[0], tl, att, al, qrs, ql),
+							map[string]any{"message": name, "urn": m.URN, "observed_locale": m.Locale, "expected_language": want, "accepted_languages": cands, "text_language": tl, "attachments_language": al, "quick_replies_language": ql,
+								"languages_of_templated_messages_before": templatedBefore})
+					}
 				}
 			}
 		}
 	}
 
 	// ---------------- say_msg of the voice variant: text and recording are localized independently, the locale is the text's
+	// (one evaluation per visit of n1, judged for the chain of that visit)
 	if cfg.Voice {
-		var ivr []sprintEvent
-		for _, e := range sprintEvents(rec) {
+		ivrOf := map[string][]*c18Msg{}
+		for _, bj := range rec.EventsJSON {
+			var e c18Event
+			json.Unmarshal(bj, &e)
 			if e.Type == "ivr_created" && e.Msg != nil {
-				ivr = append(ivr, e)
+				ivrOf[e.StepUUID] = append(ivrOf[e.StepUUID], e.Msg)
 			}
 		}
-		txt, tl := flow.resolve(chain, b.sayUUID, "text", []string{"S-base"})
-		aud, al := flow.resolve(chain, b.sayUUID, "audio_url", []string{"http://a.io/base-say.mp3"})
-		wantText, wantURL := strings.TrimSpace(txt[0]), aud[0]
-		res.Count("clause.ivr", 1)
-		switch {
-		case wantText == "" && wantURL == "":
-			res.Count("ivr.nothing_to_say", 1)
-			if len(ivr) != 0 {
-				viol("ivr.created", "none", cfg.label(langOf(cfg, ivr[0].Msg.Text+" "+strings.Join(ivr[0].Msg.Attachments, " "))), "say_msg created a message although neither its text nor its recording resolve to anything", map[string]any{"observed": ivr[0].Msg})
-			}
-		case len(ivr) != 1:
-			res.Count("skip.unexpected_ivr_count", 1)
-		default:
-			m := ivr[0].Msg
-			res.Count("clause.ivr.text", 1)
-			if m.Text != wantText {
-				viol("ivr.text", cfg.label(tl), cfg.label(langOf(cfg, m.Text)), fmt.Sprintf("say_msg text is %q, the reference chain %v gives %q (%s)", m.Text, chain, wantText, tl), map[string]any{"observed": m.Text, "expected": wantText, "expected_language": tl})
-			}
-			wantAtt := []string{}
-			if wantURL != "" {
-				wantAtt = []string{"audio:" + wantURL}
-			}
-			res.Count("clause.ivr.audio_url", 1)
-			if !eqStrings(m.Attachments, wantAtt) {
-				viol("ivr.audio_url", cfg.label(al), cfg.label(langOf(cfg, strings.Join(m.Attachments, " "))), fmt.Sprintf("say_msg recording is %v, the reference chain %v gives %q (%s)", m.Attachments, chain, wantURL, al), map[string]any{"observed": m.Attachments, "expected": wantAtt, "expected_language": al})
-			}
-			if tl != al {
-				res.Count("seen.ivr_text_and_recording_differ_in_language", 1)
-			}
-			// locale: the language used for the text; a message whose text is nothing but white space may also name the recording's
-			cands := []string{tl}
-			if wantText == "" {
-				res.Count("silent.ivr_textless_locale", 1)
-				cands = []string{tl, al}
-			}
-			res.Count("clause.ivr.locale", 1)
-			if obs := strings.SplitN(m.Locale, "-", 2)[0]; !contains(cands, obs) {
-				viol("ivr.locale", cfg.label(tl), cfg.label(obs), fmt.Sprintf("say_msg locale is %q but its text %q was taken from %s (recording from %s)", m.Locale, wantText, tl, al),
-					map[string]any{"observed_locale": m.Locale, "text_language": tl, "recording_language": al})
+		for _, v := range visitsOf("n1") {
+			at(v)
+			ivr := ivrOf[v.Step]
+			txt, tl := flow.resolve(chain, b.sayUUID, "text", []string{"S-base"})
+			aud, al := flow.resolve(chain, b.sayUUID, "audio_url", []string{"http://a.io/base-say.mp3"})
+			wantText, wantURL := strings.TrimSpace(txt[0]), aud[0]
+			res.Count("clause.ivr", 1)
+			switch {
+			case wantText == "" && wantURL == "":
+				res.Count("ivr.nothing_to_say", 1)
+				if len(ivr) != 0 {
+					viol("ivr.created", "none", lab(langOf(cfg, ivr[0].Text+" "+strings.Join(ivr[0].Attachments, " "))), "say_msg created a message although neither its text nor its recording resolve to anything", map[string]any{"observed": ivr[0]})
+				}
+			case len(ivr) != 1:
+				res.Count("skip.unexpected_ivr_count", 1)
+			default:
+				m := ivr[0]
+				res.Count("clause.ivr.text", 1)
+				if m.Text != wantText {
+					viol("ivr.text", lab(tl), lab(langOf(cfg, m.Text)), fmt.Sprintf("say_msg text is %q, the reference chain %v gives %q (%s)", m.Text, chain, wantText, tl), map[string]any{"observed": m.Text, "expected": wantText, "expected_language": tl})
+				}
+				wantAtt := []string{}
+				if wantURL != "" {
+					wantAtt = []string{"audio:" + wantURL}
+				}
+				res.Count("clause.ivr.audio_url", 1)
+				if !eqStrings(m.Attachments, wantAtt) {
+					viol("ivr.audio_url", lab(al), lab(langOf(cfg, strings.Join(m.Attachments, " "))), fmt.Sprintf("say_msg recording is %v, the reference chain %v gives %q (%s)", m.Attachments, chain, wantURL, al), map[string]any{"observed": m.Attachments, "expected": wantAtt, "expected_language": al})
+				}
+				if tl != al {
+					res.Count("seen.ivr_text_and_recording_differ_in_language", 1)
+				}
+				// locale: the language used for the text; a message whose text is nothing but white space may also name the recording's
+				cands := []string{tl}
+				if wantText == "" {
+					res.Count("silent.ivr_textless_locale", 1)
+					cands = []string{tl, al}
+				}
+				res.Count("clause.ivr.locale", 1)
+				if obs := strings.SplitN(m.Locale, "-", 2)[0]; !contains(cands, obs) {
+					viol("ivr.locale", lab(tl), lab(obs), fmt.Sprintf("say_msg locale is %q but its text %q was taken from %s (recording from %s)", m.Locale, wantText, tl, al),
+						map[string]any{"observed_locale": m.Locale, "text_language": tl, "recording_language": al})
+				}
 			}
 		}
 	}
 
 	// ---------------- category_localized of set_run_result
+	// A result shows the category localized for the chain at the time it was saved LAST (every save replaces the result).
 	effective := func(r *flows.Result) string {
 		if r.CategoryLocalized != "" {
 			return r.CategoryLocalized
@@ -976,11 +1105,29 @@ func (p *c18) check(res *fw.Result, h *harness, cfg *c18Config, b *c18Built, rec
 		}
 		return want[0]
 	}
+	// bookkeeping of the histories family: a result saved again after the contact's language was changed by the flow
+	resaved := func(vs []c18Visit, it int, baseName string, sameOutcome bool) {
+		if len(vs) < 2 || curContact == vs[0].Contact {
+			return
+		}
+		res.Count("clause.category_localized.after_language_change", 1)
+		if sameOutcome {
+			res.Count("revisit.result_saved_again_with_same_value_and_category", 1)
+			if effOf(vs[0].Contact, it, baseName) != effOf(curContact, it, baseName) {
+				res.Count("revisit.result_saved_again_same_outcome_other_localization", 1)
+			}
+		}
+	}
 	if st := storedResult(run, "Res"); st != nil {
+		vs := visitsOf("n1")
+		if len(vs) > 0 {
+			at(vs[len(vs)-1])
+		}
 		want, wl := resolve(itSetCategory)
 		res.Count("clause.category_localized.set_run_result", 1)
+		resaved(vs, itSetCategory, b.bases[itSetCategory][0], true)
 		if ew := effWant(want, b.bases[itSetCategory][0]); effective(st) != ew {
-			viol("set_run_result.category", cfg.label(wl), cfg.label(langOf(cfg, effective(st))), fmt.Sprintf("set_run_result stored localized category %q (category %q), the reference chain %v takes %q (%s), i.e. %q", st.CategoryLocalized, st.Category, chain, want, wl, ew),
+			viol("set_run_result.category", lab(wl), lab(langOf(cfg, effective(st))), fmt.Sprintf("set_run_result stored localized category %q (category %q), the reference chain %v takes %q (%s), i.e. %q", st.CategoryLocalized, st.Category, chain, want, wl, ew),
 				map[string]any{"stored": st, "chosen_translation": want, "expected": ew, "expected_language": wl})
 		}
 	} else {
@@ -1010,63 +1157,77 @@ func (p *c18) check(res *fw.Result, h *harness, cfg *c18Config, b *c18Built, rec
 		if node == nil || node.Router == nil {
 			continue
 		}
-		var step flows.Step
-		for _, st := range run.Path() {
-			if string(st.NodeUUID()) == node.UUID {
-				step = st
-			}
-		}
-		if step == nil {
+		vs := visitsOf(rr.node)
+		if len(vs) == 0 {
 			res.Count("skip.router_not_visited", 1)
 			continue
 		}
-		d := refSwitch(h.ev, env, ctx, flow, chain, node.Router, func(test, outcome string) { res.Count("test."+test+"."+outcome, 1) })
-		if d.Skip != "" || d.Cat == nil {
-			res.Count("skip.reference_undecided", 1)
-			continue
-		}
-		if d.LenMismatch > 0 {
-			// statement is silent: the code ignores a translation whose length differs from the base arguments; accepted and counted
-			res.Count("silent.args_length_mismatch_ignored", int64(d.LenMismatch))
-		}
-		for _, l := range d.ArgLangs {
-			if l != flow.Language {
-				res.Count("seen.localized_args_decide", 1)
-				break
+		// every visit leaves by the exit the reference chooses with the arguments of the chain of THAT visit (the operands are a
+		// literal and a result that every visit saves with the same value, so the context at the end of the sprint serves all);
+		// the stored result is the one of the last visit
+		var first *decision
+		for vi, v := range vs {
+			at(v)
+			last := vi == len(vs)-1
+			d := refSwitch(h.ev, env, ctx, flow, chain, node.Router, func(test, outcome string) { res.Count("test."+test+"."+outcome, 1) })
+			if d.Skip != "" || d.Cat == nil {
+				res.Count("skip.reference_undecided", 1)
+				continue
 			}
-		}
-		for k := range d.ArgLangs { // bookkeeping of the chain walk for the cases the reference evaluated
-			if k < len(rr.caseItems) {
-				resolve(rr.caseItems[k])
+			if vi == 0 {
+				dd := d
+				first = &dd
 			}
-		}
-		res.Count("decision."+d.Kind, 1)
-		expLabel := d.Kind
-		if d.Kind == "case" {
-			expLabel = "case-args-from-" + cfg.label(d.WinnerLang)
-		}
-		res.Count("clause.router_exit", 1)
-		if string(step.ExitUUID()) != d.Cat.ExitUUID {
-			viol("case.arguments.exit", expLabel, classifyExit(node, node.Router, string(step.ExitUUID())), fmt.Sprintf("router %s with localized arguments left by exit %q, the reference (arguments by chain %v from %v) chooses category %q", rr.node, step.ExitUUID(), chain, d.ArgLangs, d.Cat.Name),
-				map[string]any{"router": rr.node, "observed_exit": string(step.ExitUUID()), "reference": refWitness(d, d.Cat)})
-		}
-		st := storedResult(run, rr.result)
-		if st == nil {
-			res.Count("skip.no_router_result", 1)
-			continue
-		}
-		res.Count("clause.router_category", 1)
-		if st.Category != d.Cat.Name {
-			viol("case.arguments.category", expLabel, "category-"+fmt.Sprint(strings.SplitN(st.Category, "-", 2)[0] != strings.SplitN(d.Cat.Name, "-", 2)[0]), fmt.Sprintf("router %s stored category %q, the reference (arguments by chain %v from %v) chooses %q", rr.node, st.Category, chain, d.ArgLangs, d.Cat.Name),
-				map[string]any{"router": rr.node, "stored": st, "reference": refWitness(d, d.Cat)})
-			continue
-		}
-		it := rr.cats[d.Cat.UUID]
-		want, wl := resolve(it)
-		res.Count("clause.category_localized.router", 1)
-		if ew := effWant(want, d.Cat.Name); effective(st) != ew {
-			viol("category.name", cfg.label(wl), cfg.label(langOf(cfg, effective(st))), fmt.Sprintf("router %s stored localized category %q (category %q), the reference chain %v takes %q (%s), i.e. %q", rr.node, st.CategoryLocalized, st.Category, chain, want, wl, ew),
-				map[string]any{"router": rr.node, "stored": st, "chosen_translation": want, "expected": ew, "expected_language": wl})
+			if d.LenMismatch > 0 {
+				// statement is silent: the code ignores a translation whose length differs from the base arguments; accepted and counted
+				res.Count("silent.args_length_mismatch_ignored", int64(d.LenMismatch))
+			}
+			for _, l := range d.ArgLangs {
+				if l != flow.Language {
+					res.Count("seen.localized_args_decide", 1)
+					break
+				}
+			}
+			for k := range d.ArgLangs { // bookkeeping of the chain walk for the cases the reference evaluated
+				if k < len(rr.caseItems) {
+					resolve(rr.caseItems[k])
+				}
+			}
+			res.Count("decision."+d.Kind, 1)
+			expLabel := d.Kind
+			if d.Kind == "case" {
+				expLabel = "case-args-from-" + lab(d.WinnerLang)
+			}
+			res.Count("clause.router_exit", 1)
+			if curContact != trigLang {
+				res.Count("clause.router_exit.after_language_change", 1)
+			}
+			if v.Exit != d.Cat.ExitUUID {
+				viol("case.arguments.exit", expLabel, classifyExit(node, node.Router, v.Exit), fmt.Sprintf("router %s with localized arguments left by exit %q, the reference (arguments by chain %v from %v) chooses category %q", rr.node, v.Exit, chain, d.ArgLangs, d.Cat.Name),
+					map[string]any{"router": rr.node, "visit": vi + 1, "visits": len(vs), "observed_exit": v.Exit, "reference": refWitness(d, d.Cat)})
+			}
+			if !last {
+				continue
+			}
+			st := storedResult(run, rr.result)
+			if st == nil {
+				res.Count("skip.no_router_result", 1)
+				continue
+			}
+			res.Count("clause.router_category", 1)
+			if st.Category != d.Cat.Name {
+				viol("case.arguments.category", expLabel, "category-"+fmt.Sprint(strings.SplitN(st.Category, "-", 2)[0] != strings.SplitN(d.Cat.Name, "-", 2)[0]), fmt.Sprintf("router %s stored category %q, the reference (arguments by chain %v from %v) chooses %q", rr.node, st.Category, chain, d.ArgLangs, d.Cat.Name),
+					map[string]any{"router": rr.node, "stored": st, "reference": refWitness(d, d.Cat)})
+				continue
+			}
+			it := rr.cats[d.Cat.UUID]
+			want, wl := resolve(it)
+			res.Count("clause.category_localized.router", 1)
+			resaved(vs, it, d.Cat.Name, first != nil && first.Cat.UUID == d.Cat.UUID && first.Value == d.Value)
+			if ew := effWant(want, d.Cat.Name); effective(st) != ew {
+				viol("category.name", lab(wl), lab(langOf(cfg, effective(st))), fmt.Sprintf("router %s stored localized category %q (category %q), the reference chain %v takes %q (%s), i.e. %q", rr.node, st.CategoryLocalized, st.Category, chain, want, wl, ew),
+					map[string]any{"router": rr.node, "visits": len(vs), "stored": st, "chosen_translation": want, "expected": ew, "expected_language": wl})
+			}
 		}
 	}
 }
@@ -1112,40 +1273,47 @@ func (p *c18) checkPhase2(res *fw.Result, h *harness, cfg *c18Config, b *c18Buil
 	if flow == nil {
 		return
 	}
-	chain := refChain(h.trigger.Contact.Language, cfg.Allowed2, flow.Language)
-	var msgs []sprintEvent
-	for _, e := range sprintEvents(rec) {
-		if e.Type == "msg_created" && e.Msg != nil {
-			msgs = append(msgs, e)
-		}
+	// the contact's language is the trigger's unless the flow changed it in the first sprint (histories family)
+	_, contactLang := c18Walk(rec.Session.Runs()[0], cfg, h.trigger.Contact.Language)
+	if ct := rec.Session.Contact(); ct == nil || string(ct.Language()) != contactLang {
+		res.Count("skip.contact_language_not_as_modelled", 1)
+		return
 	}
+	chain := refChain(contactLang, cfg.Allowed2, flow.Language)
+	groups := c18MsgGroups(rec)
 	res.Count("clause.phase2", 1)
-	if len(msgs) != 1 {
+	if len(groups) != 1 {
 		res.Count("skip.unexpected_message_count", 1)
 		return
 	}
-	if strings.Join(refChain(h.trigger.Contact.Language, cfg.Allowed, flow.Language), ",") != strings.Join(chain, ",") {
+	if strings.Join(refChain(contactLang, cfg.Allowed, flow.Language), ",") != strings.Join(chain, ",") {
 		res.Count("phase2.chain_changed_by_the_resume", 1)
 	}
-	m := msgs[0].Msg
 	txt, tl := flow.resolve(chain, b.uuids[itM2Text], "text", b.bases[itM2Text])
 	att, al := flow.resolve(chain, b.uuids[itM2Att], "attachments", b.bases[itM2Att])
 	viol := func(class, expL, obsL, what string, extra map[string]any) {
 		extra["config"], extra["chain_after_resume"], extra["states"] = cfg, chain, cfg.stateTable()
 		res.Violate("C18|decision-mismatch|"+class+"|after-environment-refresh|expected="+expL+"|observed="+obsL, what, witnessOf(h.scen, extra))
 	}
-	if m.Text != txt[0] {
-		viol("msg.text", cfg.label(tl), cfg.label(langOf(cfg, m.Text)), fmt.Sprintf("after a resume that changed the allowed languages to %v the message text is %q; the chain %v gives %q (%s)", cfg.Allowed2, m.Text, chain, txt[0], tl),
-			map[string]any{"observed": m.Text, "expected": txt[0], "expected_language": tl})
-	}
-	if want := refSendableAttachments(att); !eqStrings(m.Attachments, want) {
-		viol("msg.attachments", cfg.label(al), cfg.label(langOf(cfg, strings.Join(m.Attachments, " "))), fmt.Sprintf("after a resume that changed the allowed languages to %v the attachments are %v; the chain %v gives %v (%s)", cfg.Allowed2, m.Attachments, chain, want, al),
-			map[string]any{"observed": m.Attachments, "expected": want, "expected_language": al})
-	}
-	if strings.TrimSpace(txt[0]) != "" {
-		if obs := strings.SplitN(m.Locale, "-", 2)[0]; obs != tl {
-			viol("msg.locale.from_text", cfg.label(tl), cfg.label(obs), fmt.Sprintf("after a resume that changed the allowed languages to %v the message locale is %q but its text was taken from %s", cfg.Allowed2, m.Locale, tl),
-				map[string]any{"observed_locale": m.Locale, "text_language": tl})
+	lab := func(l string) string { return cfg.labelAt(l, contactLang) }
+	// one message per destination; the templated ones (several-destinations family) do not show the flow's text
+	for _, m := range groups[0].Msgs {
+		if m.templated() {
+			continue
+		}
+		if m.Text != txt[0] {
+			viol("msg.text", lab(tl), lab(langOf(cfg, m.Text)), fmt.Sprintf("after a resume that changed the allowed languages to %v the message text is %q; the chain %v gives %q (%s)", cfg.Allowed2, m.Text, chain, txt[0], tl),
+				map[string]any{"observed": m.Text, "expected": txt[0], "expected_language": tl})
+		}
+		if want := refSendableAttachments(att); !eqStrings(m.Attachments, want) {
+			viol("msg.attachments", lab(al), lab(langOf(cfg, strings.Join(m.Attachments, " "))), fmt.Sprintf("after a resume that changed the allowed languages to %v the attachments are %v; the chain %v gives %v (%s)", cfg.Allowed2, m.Attachments, chain, want, al),
+				map[string]any{"observed": m.Attachments, "expected": want, "expected_language": al})
+		}
+		if strings.TrimSpace(txt[0]) != "" {
+			if obs := strings.SplitN(m.Locale, "-", 2)[0]; obs != tl {
+				viol("msg.locale.from_text", lab(tl), lab(obs), fmt.Sprintf("after a resume that changed the allowed languages to %v the message locale is %q but its text was taken from %s", cfg.Allowed2, m.Locale, tl),
+					map[string]any{"observed_locale": m.Locale, "text_language": tl})
+			}
 		}
 	}
 }
